@@ -1614,6 +1614,27 @@ def dwarf_cases():
                 continue
             what = 'dw_op|%s(0x%x)' % (name, code) if not regop else 'dw_op|m=%s|%s(0x%x)' % (mname, name, code)
             out.append(synth(opt, what, mark, dw_elf(dw_unit(ab, [{'b': b}], addr_size=asz, le=True, grandchild=True), cls=cls, machine=m)))
+        # nested expressions (entry_value blocks) with several operations and with operations that refer to entries of the unit, in the
+        # first unit (offset 0) and in a second one (the printed reference is unit offset + operand)
+        if mname == 'EM_X86_64':
+            nests = {'two-registers': [[0x50, []], [0x51, []]], 'regval_type': [[0xa5, [17, 0x0b]], [0x9f, []]], 'const_type': [[0xa4, [0x0b, b'\x2a']]],
+                     'deref_type': [[0xa6, [4, 0x0b]]], 'convert': [[0xa8, [0x0b]], [0xa8, [0]]], 'GNU_regval_type': [[0xf5, [17, 0x0b]]],
+                     'GNU_parameter_ref': [[0xfa, [0x0b]]], 'call2': [[0x98, [0x0b]]], 'nested-twice': [[0xa3, [[[0x50, []]]]], [0x23, [8]]]}
+            for nname, nops in sorted(nests.items()):
+                for outer in (0xa3, 0xf3):
+                    try:
+                        b, _exp = X.encode_op([outer, [nops]], True, 32, asz)
+                    except X.EncodeError:
+                        continue
+                    for second in (False, True):
+                        dw = dw_unit(ab, [{'b': b + b'\x9f'}], addr_size=asz, le=True, grandchild=True)
+                        if second:
+                            first = dw_unit({'tag': DW_TAG_variable, 'children': False, 'attrs': []}, [], addr_size=asz, le=True)
+                            dw['abtabs'] = [dw['abtabs'][0], first['abtabs'][0]]
+                            first['units'][0]['abtab'] = 1
+                            dw['units'] = [first['units'][0], dw['units'][0]]
+                        out.append(synth(opt, 'dw_op|nested|%s|outer=0x%x|%s-unit' % (nname, outer, 'second' if second else 'first'), mark,
+                                         dw_elf(dw, cls=cls, machine=m)))
         # the register-name table itself, through DW_OP_regx
         for n, rname in enumerate(tab):
             if rname == '<none>' or n < 32:
